@@ -47,6 +47,43 @@ func (s *sqlRun) randDML(rng *rand.Rand, t *tableDef, maxRank int) bool {
 	return true
 }
 
+// rollbackUnderPressure: a table of ~45 heap pages (560 rows of 300 bytes, no index) in a pool of 24 frames; one
+// transaction deletes / updates rows on every page - so its pages are written back and evicted while it runs - and is
+// rolled back; the rolled-back pages are read again only after another table has been scanned through the pool.
+func rollbackUnderPressure(tw *trace.Writer, ctx string, rng *rand.Rand, sc int) error {
+	s, err := newRun(tw, ctx, 96)
+	if err != nil {
+		return err
+	}
+	mk := func(name string) *tableDef {
+		t := &tableDef{name: name, cols: []string{"int", "varchar"}, names: []string{"c0", "c1"}, kinds: []string{"none", "none"}}
+		s.createAPI(t)
+		for b := 0; b < 28 && !s.dead; b++ {
+			rows := [][]int{}
+			for j := 0; j < 20; j++ {
+				rows = append(rows, []int{rng.Intn(NRanks - 1), NRanks - 1})
+			}
+			s.insert(t, rows, nil)
+		}
+		return t
+	}
+	t, other := mk(fmt.Sprintf("u%d", sc)), mk(fmt.Sprintf("v%d", sc))
+	for round := 0; round < 2 && !s.dead; round++ {
+		s.begin()
+		if rng.Intn(2) == 0 {
+			s.delete(t, atom(0, []string{"<", ">=", "<>"}[rng.Intn(3)], 1+rng.Intn(3)))
+		} else {
+			s.update(t, [][2]int{{0, rng.Intn(NRanks - 1)}}, atom(0, "<=", 1+rng.Intn(3)))
+			s.delete(t, atom(0, "=", rng.Intn(NRanks-1)))
+		}
+		s.endTxn(false)
+		s.scan(other)
+		s.scan(t)
+		s.selectQ(t, atom(0, "=", rng.Intn(NRanks-1)), nil, false)
+	}
+	return nil
+}
+
 // sql c03 <out.ndjson> <scenarios> <ctx>
 func sqlC03(args []string) error {
 	tw, err := trace.New(args[0])
@@ -57,6 +94,12 @@ func sqlC03(args []string) error {
 	ctx := args[2]
 	for sc := envStart(); sc < nscen; sc++ {
 		rng := scenarioRng(sc)
+		if sc%7 == 6 && ctx == "C03" {
+			if err := rollbackUnderPressure(tw, ctx, rng, sc); err != nil {
+				return err
+			}
+			continue
+		}
 		s, err := newRun(tw, ctx, 600)
 		if err != nil {
 			return err
